@@ -228,31 +228,45 @@ pub enum AbsErr {
     AboveRoot,
 }
 
-/// Reference abs(): admitted results (usually one)
-pub fn ref_abs(cwd: &str, env: &Env, s: &str) -> Result<Vec<String>, AbsErr> {
+/// Reference abs(): admitted successful results and admitted errors (more than one only where
+/// the two readings of an absolute substituted value differ)
+pub fn ref_abs_admit(cwd: &str, env: &Env, s: &str) -> (Vec<String>, Vec<AbsErr>) {
     if s.is_empty() {
-        return Err(AbsErr::Empty);
+        return (vec![], vec![AbsErr::Empty]);
     }
-    let expanded = ref_expand(env, s).map_err(AbsErr::Expand)?;
-    let mut out: Vec<String> = vec![];
-    let mut err = None;
+    // protocol prefix first, then ~ / variable expansion, then Go-Clean, then the lexical join
+    let t = ref_trim_protocol(s);
+    if t.is_empty() {
+        return (vec![cwd.to_string()], vec![]);
+    }
+    let expanded = match ref_expand(env, &t) {
+        Ok(e) => e,
+        Err(x) => return (vec![], vec![AbsErr::Expand(x)]),
+    };
+    let mut oks: Vec<String> = vec![];
+    let mut errs: Vec<AbsErr> = vec![];
     for e in expanded {
         let e = e.to_str().unwrap().to_string();
-        let t = ref_trim_protocol(&e);
-        let c = ref_clean(&t);
+        let c = ref_clean(&e);
         match join_clean(cwd, &c) {
             Ok(r) => {
-                if !out.contains(&r) {
-                    out.push(r)
+                if !oks.contains(&r) {
+                    oks.push(r)
                 }
             },
-            Err(x) => err = Some(x),
+            Err(x) => errs.push(x),
         }
     }
-    if out.is_empty() {
-        return Err(err.unwrap_or(AbsErr::AboveRoot));
+    (oks, errs)
+}
+
+pub fn ref_abs(cwd: &str, env: &Env, s: &str) -> Result<Vec<String>, AbsErr> {
+    let (oks, errs) = ref_abs_admit(cwd, env, s);
+    if oks.is_empty() {
+        Err(errs.into_iter().next().unwrap_or(AbsErr::AboveRoot))
+    } else {
+        Ok(oks)
     }
-    Ok(out)
 }
 
 /// Join a cleaned path onto an absolute clean cwd lexically
